@@ -126,8 +126,12 @@ func zzH_C05() {
 			zzOut("err"+string(rune('1'+i)), err)
 		}
 		results = append(results, got)
+		// a snapshot that also copies nested slices that are not part of the
+		// input document (a value built by a user function, or library memory)
 		cp := make([]interface{}, len(got))
-		copy(cp, got)
+		for k := range got {
+			cp[k] = zzSnap(got[k])
+		}
 		snaps = append(snaps, cp)
 		errs = append(errs, err)
 		// the caller owns earlier results: scribbling over one must not affect later calls
